@@ -79,6 +79,8 @@ ROLES = {
     "capJ": (0x4A, lambda: [0x4A]),          # J + U+030C: only the lowercase has a precomposed form (U+01F0)
     "capH": (0x48, lambda: [0x48, 0x54, 0x57, 0x59]),   # H/T/W/Y + U+0331/0308/030A: likewise (U+1E96..U+1E99)
     "caron": (0x30C, lambda: [0x30C]),
+    "lowj": (0x6A, lambda: [0x6A]),
+    "jcar": (0x1F0, lambda: [0x1F0]),
     "macronb": (0x331, lambda: [0x331, 0x308, 0x30A]),
     "d1": (0x31, lambda: list(range(0x30, 0x3A))),
     "hy": (0x2D, lambda: [0x2D, 0x2B]),
@@ -125,6 +127,7 @@ ROLES = {
     "hira": (0x3042, lambda: _pool(lambda c: _pv(c) and db()["script"].get(c) == "Hiragana" and not _dec(c), 0x3041, 0x3096)),
     "kata": (0x30A2, lambda: _pool(lambda c: _pv(c) and db()["script"].get(c) == "Katakana" and not _dec(c), 0x30A1, 0x30FA)),
     "kmdot": (0x30FB, lambda: [0x30FB]),
+    "cjkp": (0x3001, lambda: [0x3001, 0x3002, 0x300C, 0x300D, 0xFFFD, 0xFFE7]),   # same UTF-8 lead bytes as the mapped characters
     "ISP": (0x3000, lambda: [0x3000]),
     "OGH": (0x1680, lambda: [0x1680]),
     "EQD": (0x2000, lambda: [0x2000, 0x2001]),
